@@ -33,6 +33,7 @@ import (
 //                  *through* it.
 
 type globShared struct {
+	cacheResults bool
 	p        *Prog
 	retCache map[*ssa.Function]bool
 	busy     map[*ssa.Function]bool
@@ -90,7 +91,7 @@ func (g *globShared) analyse(fn *ssa.Function) (shared map[ssa.Value]string) {
 					return
 				}
 				if gl, ok := g.isModuleGlobal(x.X); ok {
-					if mark(x, shortPkg(gl.Pkg.Pkg.Path())+"."+gl.Name()) {
+					if mark(x, "package-level variable "+shortPkg(gl.Pkg.Pkg.Path())+"."+gl.Name()) {
 						changed = true
 					}
 					return
@@ -138,7 +139,7 @@ func (g *globShared) analyse(fn *ssa.Function) (shared map[ssa.Value]string) {
 				_ = root
 			case *ssa.FieldAddr:
 				if gl, ok := g.isModuleGlobal(x.X); ok {
-					if mark(x, shortPkg(gl.Pkg.Pkg.Path())+"."+gl.Name()) {
+					if mark(x, "package-level variable "+shortPkg(gl.Pkg.Pkg.Path())+"."+gl.Name()) {
 						changed = true
 					}
 				} else if o, ok := shared[x.X]; ok {
@@ -148,7 +149,7 @@ func (g *globShared) analyse(fn *ssa.Function) (shared map[ssa.Value]string) {
 				}
 			case *ssa.IndexAddr:
 				if gl, ok := g.isModuleGlobal(x.X); ok {
-					if mark(x, shortPkg(gl.Pkg.Pkg.Path())+"."+gl.Name()) {
+					if mark(x, "package-level variable "+shortPkg(gl.Pkg.Pkg.Path())+"."+gl.Name()) {
 						changed = true
 					}
 				} else if o, ok := shared[x.X]; ok {
@@ -213,7 +214,18 @@ func (g *globShared) analyse(fn *ssa.Function) (shared map[ssa.Value]string) {
 				if o, ok := shared[x.Tuple]; ok && mark(x, o) {
 					changed = true
 				}
-			// (results of calls are not followed: most functions that can return a shared value —
+			case *ssa.Call:
+				// results of the incremental caches (internal/cache): "cached values are immutable and
+				// shared between builds" is the contract stated in cache.go
+				if g.cacheResults {
+					if callee := x.Call.StaticCallee(); callee != nil && pkgPathOf(callee) == modPath+"/internal/cache" && callee.Signature.Recv() != nil && pkgPathOf(fn) != modPath+"/internal/cache" {
+						if _, had := shared[x]; !had {
+							shared[x] = "the result of " + FuncName(callee)
+							changed = true
+						}
+					}
+				}
+			// (results of other calls are not followed: most functions that can return a shared value —
 			// an expression visitor that may return the ENullShared singleton — return fresh ones on
 			// other paths, and a may-summary would make every caller's result shared)
 			case *ssa.MapUpdate:
@@ -300,8 +312,17 @@ func (g *globShared) returnsShared(fn *ssa.Function) bool {
 var globShareExceptions = ExcTable{}
 
 func globalSharedImmutability(p *Prog, name string) *RuleResult {
+	return sharedImmutability(p, name, false)
+}
+
+// cacheResultImmutability: the same value-flow with the results of the incremental caches as sources.
+func cacheResultImmutability(p *Prog, name string) *RuleResult {
+	return sharedImmutability(p, name, true)
+}
+
+func sharedImmutability(p *Prog, name string, cacheResults bool) *RuleResult {
 	r := NewRule(name, "memory reachable from a package-level variable (process-wide tables and caches) is never written through a value obtained from it — shallow copies included — except by the owner's mutex-guarded update and by package initialisers")
-	g := &globShared{p: p, retCache: map[*ssa.Function]bool{}, busy: map[*ssa.Function]bool{}}
+	g := &globShared{p: p, retCache: map[*ssa.Function]bool{}, busy: map[*ssa.Function]bool{}, cacheResults: cacheResults}
 	nFns, nShared := 0, 0
 	for _, fn := range p.ModuleFuncs() {
 		if fn.Blocks == nil {
@@ -388,7 +409,7 @@ func globalSharedImmutability(p *Prog, name string) *RuleResult {
 				continue
 			}
 			if !r.CheckExc(globShareExceptions, key) {
-				r.Fail(key, p.Pos(s.in.Pos()), "this write lands in memory that belongs to the process-wide variable "+s.org+" (reached without an allocation in between: a shallow copy shares the inner slices and maps): every later build in the process sees the change, and concurrent builds race on it")
+				r.Fail(key, p.Pos(s.in.Pos()), "this write lands in memory shared by every build of the process: "+s.org+" (reached without an allocation in between: a shallow copy shares the inner slices and maps); every later build sees the change, and concurrent builds race on it")
 			}
 		}
 	}
